@@ -267,7 +267,8 @@ class AbstractOfflineSpecification(AbstractSpecification):
         self.explainer = explainer
 
     def explain(self):
-        self.explainer.explain(self.ast)
+        # bounds are explained in samples, like the interpreter evaluates them
+        self.explainer.explain(self.ast, self.offline_interpreter.time_unit_transformer)
 
     # forwarding to interpreter
     def evaluate(self, *args, **kwargs):
